@@ -297,13 +297,13 @@ def rule_adjust(chk, prog, tier):
 
 def rule_valist(chk, prog, tier):
     r = chk.rule('C08.e', 'va_start / va_arg hand QBE the ADDRESS of the va_list object (the decayed pointer where va_list is an array type, &ap otherwise), va_copy copies the va_list object itself, va_end evaluates its operand; va_arg yields the named type and the class of that type, and only scalar types are lowered',
-                 floor=24, oracle='QBE IL vastart/vaarg take a pointer to the va_list storage; psABI / AAPCS64 / RISC-V va_list definitions (C08 descriptors are decided in C05.f)')
+                 floor=36, oracle='QBE IL vastart/vaarg take a pointer to the va_list storage; psABI / AAPCS64 / RISC-V va_list definitions (C08 descriptors are decided in C05.f)')
     bf = prog.require_func('builtinfunc', 'expr.c')
     fe = prog.require_func('funcexpr', 'qbe.c')
     names = cmodel.instnames(prog)
     for target in cmodel.TARGETS:
         for kind in ('BUILTINVASTART', 'BUILTINVAARG', 'BUILTINVACOPY', 'BUILTINVAEND'):
-            for argty in (('int', 'long', 'double', 'ptr', 'struct') if kind == 'BUILTINVAARG' else (None,)):
+            for argty in (('int', 'uint', 'long', 'ullong', 'double', 'ptr', 'enum', 'struct', 'union', 'bigstruct') if kind == 'BUILTINVAARG' else (None,)):
                 def runner(it):
                     w = World(prog, it=it, target=target)
                     adj = it.load(it.gobj('typeadjvalist'), ())
@@ -311,7 +311,8 @@ def rule_valist(chk, prog, tier):
                     isarray = adj.obj is not tv.obj
                     ap = w.temp(adj, 'ap'); ap.obj.f[('lvalue',)] = 1; ap.obj.ilabel = 'ap'
                     ap2 = w.temp(adj, 'aq'); ap2.obj.f[('lvalue',)] = 1; ap2.obj.ilabel = 'aq'
-                    T = {'int': w.t('int'), 'long': w.t('long'), 'double': w.t('double'), 'ptr': w.mkptr(w.t('char')), 'struct': w.mkstruct(size=8, align=4)}
+                    T = {'int': w.t('int'), 'uint': w.t('uint'), 'long': w.t('long'), 'ullong': w.t('ullong'), 'double': w.t('double'), 'ptr': w.mkptr(w.t('char')), 'enum': w.mkenum(w.t('uint')),
+                         'struct': w.mkstruct(size=8, align=4), 'union': w.mkstruct(size=8, align=8, kind='TYPEUNION'), 'bigstruct': w.mkstruct(size=40, align=8)}
                     q = {'n': 0}
                     def assignexpr(i2, a, e):
                         q['n'] += 1; return ap if q['n'] == 1 else ap2
@@ -356,8 +357,9 @@ def rule_valist(chk, prog, tier):
                 if kind == 'BUILTINVASTART':
                     ok = shp == addr and low == [('IVASTART', 0), addr]
                 elif kind == 'BUILTINVAARG':
-                    cls = {'int': 'w', 'long': 'l', 'double': 'd', 'ptr': 'l'}.get(argty)
-                    ok = shp == addr and tyok and (low == 'error' if argty == 'struct' else low == [('IVAARG', cls), addr])
+                    cls = {'int': 'w', 'uint': 'w', 'enum': 'w', 'long': 'l', 'ullong': 'l', 'double': 'd', 'ptr': 'l'}.get(argty)
+                    # va_arg of a structure or union is documented as unsupported: it must be diagnosed, not lowered as if it were a scalar
+                    ok = shp == addr and tyok and (low == 'error' if cls is None else low == [('IVAARG', cls), addr])
                 elif kind == 'BUILTINVACOPY':
                     ok = shp == (('EXPRASSIGN', '*ap', '*aq') if isarray else ('EXPRASSIGN', 'ap', 'aq'))
                 else:
